@@ -158,7 +158,7 @@ Section Ref.
 
   Lemma strip_nonblank f c x : f c = false -> strip_with f (c :: x) <> [].
   Proof.
-    intros Hc. unfold strip_with. cbn [drop_while]. rewrite Hc. cbn [rev].
+    intros Hc. rewrite strip_with_rev. cbn [drop_while]. rewrite Hc. cbn [rev].
     intros E. apply (f_equal (@rev N)) in E. rewrite rev_involutive in E. cbn in E.
     now apply drop_while_last in E.
   Qed.
